@@ -3,6 +3,7 @@
 package lab
 
 import (
+	"strings"
 	"bytes"
 	"encoding/json"
 	"fmt"
@@ -252,6 +253,19 @@ func mkC01() *Scenario {
 	}
 	sc.Check = func(w *World) {
 		integrityCheck(w, "C01")
+		if ws != nil {
+			// a web seed whose piece failed the hash check is not asked again
+			for _, e := range w.Tor.VerifEvents() {
+				if e.Kind == "hashfail" && strings.Contains(e.Source, "URLDownloader") {
+					if at, ok := w.Vars["wsfail"].(int); !ok {
+						w.Vars["wsfail"] = ws.NumRequests()
+					} else if ws.NumRequests() > at+1 { // one request may have been on its way
+						w.Failf("C01.webseed-reused", "a piece from the web seed failed the hash check, yet the web seed was sent %d more requests", ws.NumRequests()-at)
+					}
+					w.Count("webseed_hashfail_checks", 1)
+				}
+			}
+		}
 		for _, p := range []*Peer{p1, p2} {
 			if addr, ok := w.Vars["reoffer:"+p.Name].(string); ok {
 				for _, d := range vnet.W.DialLog() {
